@@ -177,9 +177,13 @@ def wipe(ex):
     ex.call('sess wipe')
 
 
-def nos_spec(oid, ticks=0):
-    """NewOrderSingle with the mandatory fields of FIX42UTEST and FIX44 (tokens for the executor's message builder)"""
-    return 'M 44 F 11 s:%s F 21 c:49 F 55 s:%s F 54 c:49 F 60 t:%d F 40 c:49 ;' % (hx(oid), hx('IBM'), ticks)
+def nos_spec(oid, ticks=0, data=None):
+    """NewOrderSingle with the mandatory fields of FIX42UTEST and FIX44 (tokens for the executor's message builder);
+    data: optional bytes for the EncodedTextLen/EncodedText pair (354/355), any byte values"""
+    extra = ''
+    if data is not None:
+        extra = 'F 354 i:%d F 355 s:%s ' % (len(data), hx(data))
+    return 'M 44 F 11 s:%s F 21 c:49 F 55 s:%s F 54 c:49 F 60 t:%d F 40 c:49 %s;' % (hx(oid), hx('IBM'), ticks, extra)
 
 
 def nos_toks(oid, tstext):
